@@ -706,6 +706,15 @@ void oracle_c08(Plan const& p, ChkptView const& v, Report& rep)
                     (unsigned long long) k, i, rv.refined[i], floorv));
                 return;
             }
+            // the weights the next iteration really used (the MPI variants refine a local copy)
+            if (k + 1 < v.results.size() && v.results[k + 1].weights.size() == n &&
+                !(std::fabs(v.results[k + 1].weights[i] - ref[i]) <= tol * ref[i]))
+            {
+                rep.fail("C08", "weights-used-not-refinement", key, fmt(
+                    "iteration %llu used weight %.21Lg for channel %zu, old weight x datum^beta of iteration %llu gives %.21Lg",
+                    (unsigned long long) (k + 1), v.results[k + 1].weights[i], i, (unsigned long long) k, ref[i]));
+                return;
+            }
         }
     }
 
